@@ -138,6 +138,7 @@ def run(ctx):
     hl += ['rp ' + ' '.join(c07.overfull_first_fragment(rng).steps), 'rp ' + ' '.join(c07.oversize_history(rng, jump=True).steps)]
     hl += ['rp p:22:771:0:- p:22:771:4:0e000000', 'rp p:24:771:0:- p:24:771:3:010000', 'rp p:22:771:0:- p:22:771:0:- n:22:771:0:- r p:22:771:0:-']
     lines += hl
+    lines += common.cg_lines(ctx, None)
     impl, model = ctx.run_both(lines)
     nv = 0
     maxratio = 0.0
